@@ -246,7 +246,7 @@ Record wff (p : pomdp R) (f : fsc R) : Prop := {
   wf_inisum : sumf (fN f) (finit f) = 1
 }.
 
-Lemma wff_bfsc p f : wff p f -> bfsc p f 1 1.
+Lemma wff_bfsc (p : pomdp R) (f : fsc R) : wff p f -> bfsc p f 1 1.
 Proof.
   intros W. constructor; try lra.
   - intros n Hn. apply sum_abs_nonneg; [intros; apply (wf_pinn _ _ W); auto|].
@@ -372,7 +372,7 @@ Qed.
 Definition syst (msk : nat -> bool) (tol : R) (V : nat -> nat -> R) : Prop :=
   forall n s, (n < fN f)%nat -> (s < pS p)%nat -> Rabs (V n s - chain_backup p f msk V n s) <= tol.
 
-Lemma fsc_eval_system_R msk tol V : fsc_eval_system p f msk tol V = true <-> syst msk tol V.
+Lemma fsc_eval_system_sound msk tol V : fsc_eval_system p f msk tol V = true <-> syst msk tol V.
 Proof.
   unfold fsc_eval_system, syst. rewrite forallbn_spec. split; intros H n.
   - intros s Hn Hs. specialize (H n Hn). rewrite forallbn_spec in H. apply ncloseb_R, H, Hs.
@@ -491,7 +491,7 @@ Definition benign (p : pomdp R) : Prop :=
   forall s, (s < pS p)%nat -> pabs p s = true -> forall a, (a < pA p)%nat ->
     pR p s a = 0 /\ forall t, (t < pS p)%nat -> t <> s -> pT p s a t = 0.
 
-Lemma run_step_zero p f msk n s :
+Lemma run_step_zero (p : pomdp R) (f : fsc R) msk n s :
   (forall a, (a < pA p)%nat -> pR p s a = 0) -> run_step p f msk zero2 n s = 0.
 Proof.
   intros HR. unfold run_step. destruct (msk s); [reflexivity|]. numR.
@@ -501,7 +501,7 @@ Proof.
   rewrite (sumf_0 (fN f)); [lra|]. intros m Hm. unfold zero2. lra.
 Qed.
 
-Lemma benign_code_zero p f V :
+Lemma benign_code_zero (p : pomdp R) (f : fsc R) V :
   wfp p -> wff p f -> pgamma p < 1 -> benign p -> syst p f nomask 0 V ->
   forall n s, (n < fN f)%nat -> (s < pS p)%nat -> pabs p s = true -> V n s = 0.
 Proof.
@@ -525,7 +525,7 @@ Proof.
   destruct (Req_dec (V n s) 0) as [|Hne]; [auto|]. apply Rabs_no_R0 in Hne. lra.
 Qed.
 
-Lemma benign_code_is_run p f V :
+Lemma benign_code_is_run (p : pomdp R) (f : fsc R) V :
   wfp p -> wff p f -> pgamma p < 1 -> benign p -> syst p f nomask 0 V -> syst p f (pabs p) 0 V.
 Proof.
   intros Wp Wf G1 Hb Hsys n s Hn Hs. destruct (pabs p s) eqn:Ha.
@@ -777,4 +777,234 @@ Corollary ctrl_hist_prob_false : ~ ctrl_hist_prob_stmt.
 Proof.
   intros H. destruct ctrl_hist_prob_refuted as [(p & f & h & Wf & Hh & Hi & Hs) _].
   specialize (H p f h Wf Hh). lra.
+Qed.
+
+(* ================================================================== *)
+(* E. the learners: improvement steps, escape nodes, validity, value    *)
+(* ================================================================== *)
+(* run_step only reads node n's own rows *)
+Lemma run_step_rows (p : pomdp R) (f f' : fsc R) msk W n s :
+  fN f' = fN f ->
+  (forall a, (a < pA p)%nat -> fpi f' n a = fpi f n a) ->
+  (forall a o m, (a < pA p)%nat -> (o < pO p)%nat -> (m < fN f)%nat -> fom f' n a o m = fom f n a o m) ->
+  run_step p f' msk W n s = run_step p f msk W n s.
+Proof.
+  intros HN Hpi Hom. unfold run_step. destruct (msk s); [reflexivity|].
+  apply sumf_ext. intros a Ha. rewrite Hpi by auto. f_equal. f_equal. f_equal.
+  apply sumf_ext. intros t Ht. f_equal.
+  apply sumf_ext. intros o Ho. f_equal. rewrite HN.
+  apply sumf_ext. intros m Hm. rewrite Hom by auto. reflexivity.
+Qed.
+
+(* policy-improvement lemma on the cross product: replacing node i0 by ANY rows that satisfy
+   the LP's improvement constraint with eps >= 0 cannot lower any node's value at any state
+   (V, V' = exact evaluations before / after; msk = which states are terminal) *)
+Theorem bpi_feasible_improves (p : pomdp R) (f f' : fsc R) msk V V' i0 :
+  wfp p -> pgamma p < 1 -> wff p f' -> fN f' = fN f ->
+  (forall n, (n < fN f)%nat -> n <> i0 ->
+     (forall a, (a < pA p)%nat -> fpi f' n a = fpi f n a) /\
+     (forall a o m, (a < pA p)%nat -> (o < pO p)%nat -> (m < fN f)%nat -> fom f' n a o m = fom f n a o m)) ->
+  syst p f msk 0 V -> syst p f' msk 0 V' ->
+  (forall s, (s < pS p)%nat -> V i0 s <= chain_backup p f' msk V i0 s) ->
+  forall n s, (n < fN f)%nat -> (s < pS p)%nat -> V n s <= V' n s.
+Proof.
+  intros Wp G1 Wf' HN Hrows HV HV' Hfeas n s Hn Hs.
+  pose proof (wp_g0 _ Wp) as G0.
+  assert (C0 : 0 <= pgamma p * 1 * 1) by lra.
+  assert (C1 : pgamma p * 1 * 1 < 1) by lra.
+  apply syst0_fix in HV. apply syst0_fix in HV'.
+  rewrite <- HN in Hn.
+  revert n s Hn Hs.
+  eapply op_subsolution_lower with (B := run_step p f' msk) (c := pgamma p * 1 * 1);
+    try exact C0; try exact C1; try exact HV'.
+  - apply run_step_Bcontr; auto using wff_bfsc.
+  - intros U W H n s Hn Hs. apply run_step_mono; auto.
+  - intros n s Hn Hs. destruct (Nat.eq_dec n i0) as [->|Hne].
+    + rewrite run_step_chain. apply Hfeas; auto.
+    + rewrite HN in Hn. destruct (Hrows n Hn Hne) as [Hpi Hom].
+      rewrite (run_step_rows p f f' msk V n s HN Hpi Hom). rewrite <- (HV n s Hn Hs). lra.
+Qed.
+
+(* adding an escape node (no old node moves to it) leaves the old nodes' values unchanged *)
+Theorem bpi_escape_preserves (p : pomdp R) (f f' : fsc R) msk V V' :
+  wfp p -> pgamma p < 1 -> wff p f -> fN f' = Datatypes.S (fN f) ->
+  (forall n, (n < fN f)%nat ->
+     (forall a, (a < pA p)%nat -> fpi f' n a = fpi f n a) /\
+     (forall a o, (a < pA p)%nat -> (o < pO p)%nat ->
+        fom f' n a o (fN f) = 0 /\ forall m, (m < fN f)%nat -> fom f' n a o m = fom f n a o m)) ->
+  syst p f msk 0 V -> syst p f' msk 0 V' ->
+  forall n s, (n < fN f)%nat -> (s < pS p)%nat -> V' n s = V n s.
+Proof.
+  intros Wp G1 Wf HN Hrows HV HV'.
+  pose proof (wp_g0 _ Wp) as G0.
+  apply syst0_fix in HV. apply syst0_fix in HV'.
+  assert (C0 : 0 <= pgamma p * 1 * 1) by lra.
+  assert (C1 : pgamma p * 1 * 1 < 1) by lra.
+  eapply op_unique with (B := run_step p f msk) (c := pgamma p * 1 * 1);
+    try exact C0; try exact C1; try exact HV.
+  - apply run_step_Bcontr; auto using wff_bfsc.
+  - intros n s Hn Hs. rewrite (HV' n s) by (rewrite ?HN; auto; lia).
+    destruct (Hrows n Hn) as [Hpi Hom].
+    unfold run_step. destruct (msk s); [reflexivity|].
+    apply sumf_ext. intros a Ha. rewrite Hpi by auto. f_equal. f_equal. f_equal.
+    apply sumf_ext. intros t Ht. f_equal.
+    apply sumf_ext. intros o Ho. f_equal. rewrite HN, sumf_S.
+    destruct (Hom a o Ha Ho) as [Hz Hm]. rewrite Hz.
+    rewrite (sumf_ext (fN f) _ (fun m => fom f n a o m * V' m t)).
+    + numR. lra.
+    + intros m Hmm. rewrite Hm by auto. reflexivity.
+Qed.
+
+(* strategies extracted from an LP point (c_{a,o,.}/c_a) and softmax rows are distributions *)
+Lemma normalize_valid n (x : nat -> R) :
+  (forall i, (i < n)%nat -> 0 <= x i) -> 0 < sumf n x ->
+  (forall i, (i < n)%nat -> 0 <= x i / sumf n x) /\ sumf n (fun i => x i / sumf n x) = 1.
+Proof.
+  intros Hx Hs. split.
+  - intros i Hi. apply Rmult_le_pos; [auto|]. left. now apply Rinv_0_lt_compat.
+  - unfold Rdiv. rewrite sumf_scal_r. apply Rinv_r. lra.
+Qed.
+Definition bpi_valid := normalize_valid.
+Lemma ga_valid n (l : nat -> R) :
+  (0 < n)%nat ->
+  (forall i, (i < n)%nat -> 0 <= exp (l i) / sumf n (fun j => exp (l j))) /\
+  sumf n (fun i => exp (l i) / sumf n (fun j => exp (l j))) = 1.
+Proof.
+  intros Hn. apply (normalize_valid n (fun i => exp (l i))).
+  - intros i _. left. apply exp_pos.
+  - destruct n; [lia|]. rewrite sumf_S.
+    assert (0 <= sumf n (fun j => exp (l j))) by (apply sumf_nonneg; intros; left; apply exp_pos).
+    pose proof (exp_pos (l n)). lra.
+Qed.
+
+(* ================================================================== *)
+(* F. soundness of the boolean checkers (R instance)                    *)
+(* ================================================================== *)
+Lemma neqb_R_eq x y : @neqb R NumR x y = true <-> x = y.
+Proof. unfold neqb; numR. rewrite andb_true_iff, !Rleb_true. split; [lra|intros ->; lra]. Qed.
+Lemma nleb_R_le x y : @nleb R NumR x y = true <-> x <= y.
+Proof. numR. apply Rleb_true. Qed.
+
+Lemma pomdp_wfb_wf (p : pomdp R) : pomdp_wfb p = true -> wfp p.
+Proof.
+  unfold pomdp_wfb. rewrite !andb_true_iff. intros [[Hg HT] HO].
+  rewrite forallbn_spec in HT, HO. constructor.
+  - now apply nleb_R_le.
+  - intros s a t Hs Ha Ht. specialize (HT s Hs). rewrite forallbn_spec in HT. specialize (HT a Ha).
+    apply andb_true_iff in HT as [HT _]. rewrite forallbn_spec in HT. apply nleb_R_le, HT, Ht.
+  - intros s a Hs Ha. specialize (HT s Hs). rewrite forallbn_spec in HT. specialize (HT a Ha).
+    apply andb_true_iff in HT as [_ HT]. now apply nleb_R_le.
+  - intros a t o Ha Ht Ho. specialize (HO a Ha). rewrite forallbn_spec in HO. specialize (HO t Ht).
+    apply andb_true_iff in HO as [HO _]. rewrite forallbn_spec in HO. apply nleb_R_le, HO, Ho.
+  - intros a t Ha Ht. specialize (HO a Ha). rewrite forallbn_spec in HO. specialize (HO t Ht).
+    apply andb_true_iff in HO as [_ HO]. now apply nleb_R_le.
+Qed.
+
+Lemma dist_row_sound k (r : nat -> R) :
+  dist_row k r = true -> (forall i, (i < k)%nat -> 0 <= r i) /\ sumf k r = 1.
+Proof.
+  unfold dist_row. rewrite andb_true_iff, forallbn_spec. intros [H1 H2]. split.
+  - intros i Hi. apply nleb_R_le, H1, Hi.
+  - now apply neqb_R_eq.
+Qed.
+
+Lemma fsc_wfb_wf (p : pomdp R) (f : fsc R) : fsc_wfb p f = true -> wff p f.
+Proof.
+  unfold fsc_wfb. rewrite andb_true_iff, forallbn_spec. intros [H Hi].
+  apply dist_row_sound in Hi as [Hi1 Hi2].
+  assert (Hn : forall n, (n < fN f)%nat ->
+     ((forall a, (a < pA p)%nat -> 0 <= fpi f n a) /\ sumf (pA p) (fpi f n) = 1) /\
+     forall a o, (a < pA p)%nat -> (o < pO p)%nat ->
+       (forall m, (m < fN f)%nat -> 0 <= fom f n a o m) /\ sumf (fN f) (fom f n a o) = 1).
+  { intros n Hn. specialize (H n Hn). apply andb_true_iff in H as [Hp Ho]. split.
+    - now apply dist_row_sound.
+    - intros a o Ha Hoo. rewrite forallbn_spec in Ho. specialize (Ho a Ha).
+      rewrite forallbn_spec in Ho. now apply dist_row_sound, Ho. }
+  constructor; auto.
+  - intros n a Hnn Ha. apply (Hn n Hnn); auto.
+  - intros n Hnn. apply (Hn n Hnn).
+  - intros n a o m Hnn Ha Ho Hm. apply (Hn n Hnn); auto.
+  - intros n a o Hnn Ha Ho. apply (Hn n Hnn); auto.
+Qed.
+
+Lemma fsc_bounded_sound (p : pomdp R) (f : fsc R) kpi kom : fsc_bounded p f kpi kom = true -> bfsc p f kpi kom.
+Proof.
+  unfold fsc_bounded. rewrite !andb_true_iff, forallbn_spec. intros [[H1 H2] H].
+  constructor; try (now apply nleb_R_le).
+  - intros n Hn. specialize (H n Hn). apply andb_true_iff in H as [H _].
+    unfold abs_row_le in H. apply nleb_R_le in H.
+    erewrite sumf_ext; [exact H|]. intros i _. cbv beta. now rewrite nabs_R.
+  - intros n a o Hn Ha Ho. specialize (H n Hn). apply andb_true_iff in H as [_ H].
+    rewrite forallbn_spec in H. specialize (H a Ha). rewrite forallbn_spec in H. specialize (H o Ho).
+    unfold abs_row_le in H. apply nleb_R_le in H.
+    erewrite sumf_ext; [exact H|]. intros i _. cbv beta. now rewrite nabs_R.
+Qed.
+
+Lemma abs_benign_sound (p : pomdp R) : abs_benign p = true -> benign p.
+Proof.
+  unfold abs_benign, benign. rewrite forallbn_spec. intros H s Hs Hab a Ha.
+  specialize (H s Hs). rewrite Hab, forallbn_spec in H. specialize (H a Ha).
+  apply andb_true_iff in H as [HR HT]. split; [now apply neqb_R_eq|].
+  intros t Ht Hne. rewrite forallbn_spec in HT. specialize (HT t Ht).
+  apply orb_true_iff in HT as [HT|HT]; [apply Nat.eqb_eq in HT; contradiction|now apply neqb_R_eq].
+Qed.
+
+Lemma vbound_sound (p : pomdp R) (f : fsc R) M V :
+  vbound p f M V = true -> forall n s, (n < fN f)%nat -> (s < pS p)%nat -> Rabs (V n s) <= M.
+Proof.
+  unfold vbound. rewrite forallbn_spec. intros H n s Hn Hs. specialize (H n Hn).
+  rewrite forallbn_spec in H. specialize (H s Hs). rewrite nabs_R in H. now apply nleb_R_le.
+Qed.
+
+(* validity of a returned controller, with the float slack tol *)
+Definition row_valid (tol : R) (k : nat) (r : nat -> R) : Prop :=
+  (forall i, (i < k)%nat -> - tol <= r i) /\ Rabs (sumf k r - 1) <= tol.
+Lemma row_ok_sound (tol : R) k (r : nat -> R) : row_ok tol k r = true -> row_valid tol k r.
+Proof.
+  unfold row_ok, row_valid. rewrite andb_true_iff, forallbn_spec. intros [H1 H2]. split.
+  - intros i Hi. specialize (H1 i Hi). apply nleb_R_le in H1. numR. lra.
+  - now apply ncloseb_R.
+Qed.
+Definition fsc_valid (p : pomdp R) (f : fsc R) (tol : R) : Prop :=
+  (forall n, (n < fN f)%nat -> row_valid tol (pA p) (fpi f n) /\
+     forall a o, (a < pA p)%nat -> (o < pO p)%nat -> row_valid tol (fN f) (fom f n a o)) /\
+  row_valid tol (fN f) (finit f).
+Lemma fsc_rows_valid_sound (p : pomdp R) (f : fsc R) tol : fsc_rows_valid p f tol = true -> fsc_valid p f tol.
+Proof.
+  unfold fsc_rows_valid, fsc_valid. rewrite andb_true_iff, forallbn_spec. intros [H Hi].
+  split; [|now apply row_ok_sound]. intros n Hn. specialize (H n Hn). apply andb_true_iff in H as [Hp Ho].
+  split; [now apply row_ok_sound|]. intros a o Ha Hoo. rewrite forallbn_spec in Ho. specialize (Ho a Ha).
+  rewrite forallbn_spec in Ho. now apply row_ok_sound, Ho.
+Qed.
+
+Lemma value_ok_sound (p : pomdp R) (f : fsc R) tol rep V : value_ok p f tol rep V = true -> Rabs (rep - init_value p f V) <= tol.
+Proof. unfold value_ok. apply ncloseb_R. Qed.
+
+Lemma bpi_node_feasible_sound (p : pomdp R) (f : fsc R) msk tol V n eps :
+  bpi_node_feasible p f msk tol V n eps = true ->
+  0 <= eps /\ forall s, (s < pS p)%nat -> msk s = false -> V n s + eps <= chain_backup p f msk V n s + tol.
+Proof.
+  unfold bpi_node_feasible. rewrite andb_true_iff, forallbn_spec. intros [H1 H2]. split; [now apply nleb_R_le|].
+  intros s Hs Hm. specialize (H2 s Hs). rewrite Hm in H2. apply nleb_R_le in H2. exact H2.
+Qed.
+
+Lemma mono_ok_sound (tol : R) N S (V W : nat -> nat -> R) :
+  mono_ok tol N S V W = true -> forall n s, (n < N)%nat -> (s < S)%nat -> V n s <= W n s + tol.
+Proof.
+  unfold mono_ok. rewrite forallbn_spec. intros H n s Hn Hs. specialize (H n Hn).
+  rewrite forallbn_spec in H. apply nleb_R_le, H, Hs.
+Qed.
+
+(* every consecutive pair of recorded tables is monotone node by node *)
+Theorem mono_chain_sound (tol : R) S (l : list (list (list R))) :
+  mono_chain tol S l = true ->
+  forall i V W, nth_error l i = Some V -> nth_error l (Datatypes.S i) = Some W ->
+  forall n s, (n < length V)%nat -> (s < S)%nat -> untab2 V n s <= untab2 W n s + tol.
+Proof.
+  induction l as [|V0 tl IH]; intros H i V W HV HW; [destruct i; discriminate|].
+  destruct tl as [|W0 tl']; [destruct i as [|[|i]]; discriminate|].
+  cbn [mono_chain] in H. apply andb_true_iff in H as [H1 H2].
+  destruct i as [|i].
+  - simpl in HV, HW. inversion HV; inversion HW; subst. apply mono_ok_sound; auto.
+  - apply (IH H2 i V W); auto.
 Qed.
